@@ -20,6 +20,8 @@ pub struct Case {
 	/// false when the document contains float literals whose spelling cannot
 	/// survive (they reach the macro as f64): compared as "same double".
 	pub exact: bool,
+	/// the document contains an `f32`-suffixed literal: numbers are compared as the same single
+	pub single: bool,
 }
 
 fn rust_str(s: &str) -> String {
@@ -42,6 +44,7 @@ fn gen_macro_string(rng: &mut Rng) -> String {
 struct Gen<'a> {
 	rng: &'a mut Rng,
 	exact: bool,
+	single: bool,
 	nodes: usize,
 }
 
@@ -129,6 +132,47 @@ impl<'a> Gen<'a> {
 				}
 				// floats whose spelling cannot survive: exponent forms, trailing zeros, f32 suffix, integral floats
 				self.exact = false;
+				match rng.below(4) {
+					0 => {
+						// doubles with few significant bits (widened singles, dyadic fractions), shortest spelling
+						let x: f64 = loop {
+							let x = match rng.below(3) {
+								0 => f32::from_bits(rng.next_u64() as u32) as f64,
+								1 => [0.1f32, 0.2, 0.7, 1.1, 3.14, 1e10, 1e-10, 16777217.0, f32::MAX, f32::MIN_POSITIVE][rng.below(10)] as f64,
+								_ => (1 + 2 * rng.below(64)) as f64 * 2f64.powi(rng.below(120) as i32 - 60),
+							};
+							if x.is_finite() {
+								break x;
+							}
+						};
+						let s = format!("{:?}", x);
+						return (s.clone(), RVal::Num(s.strip_suffix(".0").map(|t| t.to_string()).unwrap_or(s)));
+					}
+					1 => {
+						// any double, shortest spelling (decimal or exponent form as Rust prints it)
+						let x = loop {
+							let x = f64::from_bits(rng.next_u64());
+							if x.is_finite() {
+								break x;
+							}
+						};
+						let s = format!("{:?}", x);
+						return (s.clone(), RVal::Num(s.strip_suffix(".0").map(|t| t.to_string()).unwrap_or(s)));
+					}
+					2 => {
+						// any single with the f32 suffix
+						self.single = true;
+						let x = loop {
+							let x = f32::from_bits(rng.next_u64() as u32);
+							if x.is_finite() {
+								break x;
+							}
+						};
+						let s = format!("{:?}", x);
+						return (format!("{}f32", s), RVal::Num(s.strip_suffix(".0").map(|t| t.to_string()).unwrap_or(s)));
+					}
+					_ => {}
+				}
 				let (text, val): (&str, &str) = [
 					("1e3", "1000"),
 					("2.50", "2.5"),
@@ -224,43 +268,46 @@ pub fn gen_case(rng: &mut Rng) -> Case {
 	let mut g = Gen {
 		rng,
 		exact: true,
+		single: false,
 		nodes: 0,
 	};
 	let (rust, v) = if g.rng.chance(1, 10) { g.scalar() } else { g.value(0) };
 	let mut json = String::new();
 	pr::compact(&v, &mut json);
 	let exact = g.exact;
+	let single = g.single;
 	// the macro is also invoked with braces / brackets delimiters
 	let rust = match g.rng.below(3) {
 		0 => format!("json!({})", rust),
 		1 => format!("json! {{ {} }}", rust),
 		_ => format!("json![{}]", rust),
 	};
-	Case { rust, json, exact }
+	Case { rust, json, exact, single }
 }
 
 const PRELUDE: &str = r#"#![recursion_limit = "1024"]
 #![allow(unused)]
 use json_syntax::{json, Parse, Value};
 const K_EMPTY: &str = "";
-fn same(a: &Value, b: &Value, exact: bool) -> bool {
+fn same(a: &Value, b: &Value, exact: bool, single: bool) -> bool {
 	match (a, b) {
 		(Value::Number(x), Value::Number(y)) => {
 			if exact { x == y } else {
 				x.as_str() == y.as_str() || (x.as_str().parse::<f64>().ok().map(f64::to_bits) == y.as_str().parse::<f64>().ok().map(f64::to_bits) && x.as_str().parse::<f64>().is_ok())
+					|| (single && x.as_str().parse::<f32>().ok().map(f32::to_bits) == y.as_str().parse::<f32>().ok().map(f32::to_bits) && x.as_str().parse::<f32>().is_ok())
 			}
 		}
-		(Value::Array(x), Value::Array(y)) => x.len() == y.len() && x.iter().zip(y.iter()).all(|(p, q)| same(p, q, exact)),
+		(Value::Array(x), Value::Array(y)) => x.len() == y.len() && x.iter().zip(y.iter()).all(|(p, q)| same(p, q, exact, single)),
 		(Value::Object(x), Value::Object(y)) => {
-			x.len() == y.len() && x.iter().zip(y.iter()).all(|(p, q)| p.key == q.key && same(&p.value, &q.value, exact))
+			x.len() == y.len() && x.iter().zip(y.iter()).all(|(p, q)| p.key == q.key && same(&p.value, &q.value, exact, single))
 		}
 		_ => a == b,
 	}
 }
-fn check(i: usize, built: Value, text: &str, exact: bool) {
+fn check(i: usize, built: Value, text: &str, exact: bool, single: bool) {
 	match Value::parse_str(text) {
 		Ok((parsed, _)) => {
-			let ok = if exact { built == parsed } else { same(&built, &parsed, false) };
+			let ok = if exact { built == parsed } else { same(&built, &parsed, false, single) };
 			// the index of the macro-built object must answer queries too
 			let mut q_ok = true;
 			if let (Value::Object(a), Value::Object(b)) = (&built, &parsed) {
@@ -281,7 +328,7 @@ pub fn render_batch(cases: &[Case]) -> (String, usize) {
 	let mut src = String::from(PRELUDE);
 	let first_line = src.lines().count() + 1;
 	for (i, c) in cases.iter().enumerate() {
-		src.push_str(&format!("\tcheck({}, {}, {}, {});\n", i, c.rust, rust_str(&c.json), c.exact));
+		src.push_str(&format!("\tcheck({}, {}, {}, {}, {});\n", i, c.rust, rust_str(&c.json), c.exact, c.single));
 	}
 	src.push_str("}\n");
 	(src, first_line)
@@ -360,7 +407,7 @@ fn run_batches(cfg: &Config, rep: &mut Report, batches: &[Vec<Case>], crate_name
 				rep.violation(
 					"C19:macro-rejects-literal",
 					format!("the generated invocation `{}` (JSON {}) does not compile: {}", c.rust, show(c.json.as_bytes()), line.chars().take(300).collect::<String>()),
-					json!({"sub": "macro", "rust": c.rust, "json": c.json, "exact": c.exact}),
+					json!({"sub": "macro", "rust": c.rust, "json": c.json, "exact": c.exact, "single": c.single}),
 				);
 				reported += 1;
 				if reported >= 5 {
@@ -406,7 +453,7 @@ fn run_batches(cfg: &Config, rep: &mut Report, batches: &[Vec<Case>], crate_name
 				rep.violation(
 					"C19:value-differs",
 					format!("`{}` vs JSON text {}: {}", c.rust, show(c.json.as_bytes()), verdict.chars().take(600).collect::<String>()),
-					json!({"sub": "macro", "rust": c.rust, "json": c.json, "exact": c.exact}),
+					json!({"sub": "macro", "rust": c.rust, "json": c.json, "exact": c.exact, "single": c.single}),
 				);
 			}
 		}
@@ -417,7 +464,7 @@ fn run_batches(cfg: &Config, rep: &mut Report, batches: &[Vec<Case>], crate_name
 			rep.violation(
 				"C19:program-aborted",
 				format!("generated program b{} stopped after {} of {} cases (exit {:?}) at `{}`: {}", b, seen, cases.len(), out.status.code(), c.rust, err.lines().next().unwrap_or("")),
-				json!({"sub": "macro", "rust": c.rust, "json": c.json, "exact": c.exact}),
+				json!({"sub": "macro", "rust": c.rust, "json": c.json, "exact": c.exact, "single": c.single}),
 			);
 		}
 	}
@@ -443,12 +490,12 @@ pub fn run(cfg: &Config) -> i32 {
 				for trailing in [false, true] {
 					let items: Vec<String> = (0..k).map(|j| match j % 4 { 0 => format!("{}", j), 1 => format!("\"s{}\"", j), 2 => "true".to_string(), _ => format!("-{}", j) }).collect();
 					let t = if trailing { "," } else { "" };
-					cases.push(Case { rust: format!("json!([{}{}])", items.join(", "), t), json: format!("[{}]", items.join(",")), exact: true });
-					cases.push(Case { rust: format!("json!([null, [], {}{}])", items.join(", "), t), json: format!("[null,[],{}]", items.join(",")), exact: true });
+					cases.push(Case { rust: format!("json!([{}{}])", items.join(", "), t), json: format!("[{}]", items.join(",")), exact: true, single: false });
+					cases.push(Case { rust: format!("json!([null, [], {}{}])", items.join(", "), t), json: format!("[null,[],{}]", items.join(",")), exact: true, single: false });
 					let entries: Vec<String> = (0..k).map(|j| format!("\"k{}\": {}", j % 30, items[j])).collect();
 					let jentries: Vec<String> = (0..k).map(|j| format!("\"k{}\":{}", j % 30, items[j])).collect();
-					cases.push(Case { rust: format!("json!({{{}{}}})", entries.join(", "), t), json: format!("{{{}}}", jentries.join(",")), exact: true });
-					cases.push(Case { rust: format!("json!({{\"head\": null, (\"p\"): {{}}, {}{}}})", entries.join(", "), t), json: format!("{{\"head\":null,\"p\":{{}},{}}}", jentries.join(",")), exact: true });
+					cases.push(Case { rust: format!("json!({{{}{}}})", entries.join(", "), t), json: format!("{{{}}}", jentries.join(",")), exact: true, single: false });
+					cases.push(Case { rust: format!("json!({{\"head\": null, (\"p\"): {{}}, {}{}}})", entries.join(", "), t), json: format!("{{\"head\":null,\"p\":{{}},{}}}", jentries.join(",")), exact: true, single: false });
 				}
 			}
 		}
@@ -466,6 +513,7 @@ pub fn run(cfg: &Config) -> i32 {
 					rust: r.to_string(),
 					json: j.to_string(),
 					exact: true,
+					single: false,
 				});
 			}
 		}
@@ -479,7 +527,7 @@ pub fn run(cfg: &Config) -> i32 {
 		cfg,
 		EvidenceMeta {
 			id: "C19",
-			rule: "a case is one json! invocation over a generated document (nesting up to 4, optional trailing commas at every level incl. after nested containers, string literals of every character class, null/true/false, unsuffixed i32 integers incl. negative ones, suffixed integers of every width at their bounds, spelling-stable floats compared exactly and exponent / trailing-zero / f32 floats compared as the same double, duplicate keys, parenthesized / String::from / concat! / const keys, the three macro delimiters; plus arrays and objects of exactly k scalar literals for every k in 1..40 with and without a trailing comma) emitted as Rust source together with the matching JSON text; the programs are compiled against the current tree and executed, each comparing the constructed value with Value::parse_str of the text (and key lookups on the constructed object); a compile error attributed to an invocation is a violation; distinct invocations counted by hash",
+			rule: "a case is one json! invocation over a generated document (nesting up to 4, optional trailing commas at every level incl. after nested containers, string literals of every character class, null/true/false, unsuffixed i32 integers incl. negative ones, suffixed integers of every width at their bounds, spelling-stable floats compared exactly and exponent / trailing-zero floats, the shortest spelling of random doubles and of doubles with few significant bits (widened singles, dyadic fractions) compared as the same double, f32-suffixed literals (fixed ones and the shortest spelling of random singles) compared as the same single, duplicate keys, parenthesized / String::from / concat! / const keys, the three macro delimiters; plus arrays and objects of exactly k scalar literals for every k in 1..40 with and without a trailing comma) emitted as Rust source together with the matching JSON text; the programs are compiled against the current tree and executed, each comparing the constructed value with Value::parse_str of the text (and key lookups on the constructed object); a compile error attributed to an invocation is a violation; distinct invocations counted by hash",
 			exhaustive: false,
 			assumptions: vec!["rustc's macro expander is part of the trusted base; a float literal reaches the macro as an f64, so only shortest-round-trip spellings without exponent are required to be preserved exactly".into()],
 			extra: json!({"batches": n_batches, "invocations_per_batch": per}),
@@ -496,6 +544,7 @@ pub fn replay_case(cfg: &Config, case: &serde_json::Value) -> Option<Vec<String>
 		rust: case.get("rust")?.as_str()?.to_string(),
 		json: case.get("json")?.as_str()?.to_string(),
 		exact: case.get("exact")?.as_bool()?,
+		single: case.get("single").and_then(|x| x.as_bool()).unwrap_or(false),
 	};
 	let mut rep = Report::new();
 	run_batches(cfg, &mut rep, &[vec![c]], "macro_replay");
